@@ -29,7 +29,7 @@ ASSUMPTIONS = [
 ]
 SHARDS = {"quick": 8, "thorough": 16}
 TIMEOUT = {"quick": 600, "thorough": 3600}
-MIN_CASES = {"quick": 50_000, "thorough": 800_000}
+MIN_CASES = {"quick": 50_000, "thorough": 250_000}
 REQUIRED_COUNTERS = ["outbound_decoded", "inbound_deliveries_checked", "corruptions_rejected", "real_transport_teardowns"]
 
 OUT_LENGTHS = [0, 1, 2, 1023, 1024, 1025, 2047, 2048, 2049, 3071, 3072, 3073, 4096, 5000, 10240, 10241]
@@ -221,7 +221,7 @@ async def run_inbound_small(ctx) -> None:
     spy = Spy()
     spy.install()
     try:
-        lengths = ctx.pick([1, 2, 3, 4, 5, 6, 9, 17, 40, 100, 150], list(range(1, 13)) + [17, 33, 40, 64, 100, 128, 150])
+        lengths = ctx.pick([1, 2, 3, 4, 5, 6, 9, 17, 40, 100, 150], list(range(1, 21)) + [24, 33, 40, 48, 64, 80, 100, 128, 150])
         idx = 0
         for n in lengths:
             for sizes in partitions_small(n):
@@ -264,7 +264,7 @@ async def run_inbound_small(ctx) -> None:
         ctx.exhaustive_parts["inbound: every 1-/2-cut of every small ciphertext stream (<=190 bytes)"] = True
 
         # large streams
-        for k in range(ctx.pick(48, 800)):
+        for k in range(ctx.pick(48, 6000)):
             if not ctx.mine(k):
                 continue
             rng = ctx.grng("C05.large", k)
@@ -354,7 +354,7 @@ async def run_corruption(ctx) -> None:
                                          {"part": "corrupt", "shape": shape, "k": k, "bit": bitpos, "split": split_mode})
         ctx.exhaustive_parts["corruption: every single-bit flip of every frame of the listed small shapes"] = True
         # large frames: sampled bits
-        for t in range(ctx.pick(40, 600)):
+        for t in range(ctx.pick(40, 6000)):
             if not ctx.mine(t):
                 continue
             rng = ctx.grng("C05.corrupt.large", t)
@@ -375,7 +375,7 @@ async def run_real_transport(ctx) -> None:
     """Corrupted frame on a real asyncio transport: connection closed, pending request fails, nothing delivered."""
     from vf import simnet
 
-    n = ctx.pick(24, 200)
+    n = ctx.pick(24, 2000)
     for t in range(n):
         if not ctx.mine(t):
             continue
